@@ -63,8 +63,15 @@ def isBuiltinName (s : String) : Bool := builtinPrefix.toList.isPrefixOf s.toLis
 /-- `common.IsRootObjectName` -/
 def isRootName (s : String) : Bool := s == queryName || s == mutationName || s == subscriptionName
 
-/-- `isIDType`: `t.Name() == "ID" && t.NonNull` (innermost name, outermost flag) -/
-def isIDType (t : TypeRef) : Bool := t.name == "ID" && t.isNonNull
+/-- `isNonNullableTypeNamed(t, n)`: `t.Name() == n && t.NonNull` (innermost name, outermost flag),
+    preceded on the repaired tree by `t.Elem == nil` (a list of the type is not the type) -/
+def isNonNullNamed (t : TypeRef) (n : String) : Bool :=
+  if Gen.Merge.namedTypeExcludesLists then t == .nonNull (.named n) else t.name == n && t.isNonNull
+/-- `isNullableTypeNamed(t, n)` -/
+def isNullableNamed (t : TypeRef) (n : String) : Bool :=
+  if Gen.Merge.namedTypeExcludesLists then t == .named n else t.name == n && !t.isNonNull
+/-- `isIDType` -/
+def isIDType (t : TypeRef) : Bool := isNonNullNamed t "ID"
 /-- `isIDField` -/
 def isIDField (f : FieldDef) : Bool := f.name == idFieldName && f.args.isEmpty && isIDType f.type
 /-- `isNodeField`: one argument `id` of ID type, nullable result named `Node`; the first test is
@@ -72,7 +79,7 @@ def isIDField (f : FieldDef) : Bool := f.name == idFieldName && f.args.isEmpty &
 def isNodeField (F : Facts) (f : FieldDef) : Bool :=
   (if F.nodeFieldByName then f.name == nodeFieldName else f.name != nodeInterfaceName) &&
   match f.args with
-  | [a] => a.name == idFieldName && isIDType a.type && (f.type.name == nodeInterfaceName && !f.type.isNonNull)
+  | [a] => a.name == idFieldName && isIDType a.type && isNullableNamed f.type nodeInterfaceName
   | _ => false
 /-- `isImplementsNodeInterface` -/
 def implementsNode (d : TypeDef) : Bool := d.interfaces.contains nodeInterfaceName
